@@ -320,6 +320,47 @@ func pxShapeScenarios() []pxScenario {
 	return out
 }
 
+// writer faults: the connection's Write hands the envelope over and THEN returns an error ("failafter"), directly or
+// after having been blocked; a plain failing Write for comparison. The peer is removed, reported and dialled again;
+// no envelope may reach a peer twice (hand-overs whose Write failed count).
+func pxWriterFaults(how string, variant int) pxScenario {
+	b := &pxBuilder{tok: 900}
+	b.add(att(1)...)
+	b.add(att(2)...)
+	if variant%2 == 1 {
+		b.add(att(3)...)
+	}
+	b.add(b.send(1, 2))
+	switch how {
+	case "failafter":
+		b.add(PAct{Op: "setw", N: 2, M: "failafter", Err: variant})
+		b.add(b.send(1, 2))
+	case "blocked-failafter":
+		b.add(PAct{Op: "setw", N: 2, M: "block"})
+		b.add(b.send(1, 2))
+		b.add(b.send(1, 2))
+		b.add(PAct{Op: "setw", N: 2, M: "failafter", Err: variant})
+	case "fail":
+		b.add(PAct{Op: "setw", N: 2, M: "fail", Err: variant})
+		b.add(b.send(1, 2))
+	case "failafter-burst":
+		b.add(PAct{Op: "setw", N: 2, M: "failafter", Err: variant})
+		b.add(b.send(1, 2), b.send(1, 2), b.send(1, 2))
+	}
+	b.add(b.send(2, 1)) // the peer itself still speaks (its read loop goes down with the write loop)
+	b.add(b.send(1, 2)) // dialled again
+	b.add(PAct{Op: "dial", N: 2, M: "ok"})
+	b.add(b.send(1, 2))
+	if variant%2 == 1 {
+		b.add(PAct{Op: "setw", N: 2, M: "failafter", Err: variant + 3}) // the dialled connection too
+		b.add(b.send(3, 2))
+		b.add(b.send(1, 2))
+		b.add(PAct{Op: "dial", N: 2, M: "ok"})
+	}
+	b.add(b.send(2, 1))
+	return pxScenario{Icp: 0, ByRef: variant%2 == 0, Steps: b.steps, Tags: []string{"writer-faults", "write=" + how}}
+}
+
 func pxRandomWalk(r *rand.Rand, n int, faults bool) pxScenario {
 	b := &pxBuilder{tok: 1000}
 	names := []int64{1, 2, 3, 4, 5, 6, 102, 7}
@@ -377,13 +418,15 @@ func pxRandomWalk(r *rand.Rand, n int, faults bool) pxScenario {
 			}
 			b.add(g...)
 		case x < 62:
-			b.add(PAct{Op: "dial", N: names[r.Intn(len(names))], M: []string{"ok", "ok", "fail"}[r.Intn(3)], Deaf: faults && r.Intn(8) == 0})
+			b.add(PAct{Op: "dial", N: names[r.Intn(len(names))], M: []string{"ok", "ok", "fail"}[r.Intn(3)], Deaf: faults && r.Intn(8) == 0,
+				Err: r.Intn(pxNumErrKinds) * btoi(faults)})
 		case x < 70:
 			b.add(PAct{Op: "attach", N: names[r.Intn(5)], Deaf: faults && r.Intn(8) == 0})
 		case x < 80:
-			b.add(PAct{Op: "setw", N: names[r.Intn(6)], Gen: r.Intn(2) * r.Intn(2), M: []string{"ok", "block", "ok", "fail"}[r.Intn(3+btoi(faults))]})
+			b.add(PAct{Op: "setw", N: names[r.Intn(6)], Gen: r.Intn(2) * r.Intn(2), Err: r.Intn(pxNumErrKinds),
+				M: []string{"ok", "block", "ok", "fail", "failafter"}[r.Intn(3+2*btoi(faults))]})
 		case x < 86 && faults:
-			b.add(PAct{Op: "failread", N: names[r.Intn(6)], Gen: r.Intn(2) * r.Intn(2)})
+			b.add(PAct{Op: "failread", N: names[r.Intn(6)], Gen: r.Intn(2) * r.Intn(2), Err: r.Intn(pxNumErrKinds)})
 		case x < 88 && faults && len(b.steps) > n/2:
 			b.add(PAct{Op: "cancel"})
 		default:
@@ -446,6 +489,12 @@ func c16Scenarios() []pxScenario {
 	for _, how := range []string{"read", "write", "write-blocked", "dialerror"} {
 		for v := 0; v < 4; v++ {
 			out = append(out, pxDialThenFail(how, v))
+		}
+	}
+	// 3b'. writes that deliver and then fail
+	for _, how := range []string{"failafter", "blocked-failafter", "fail", "failafter-burst"} {
+		for v := 0; v < 4; v++ {
+			out = append(out, pxWriterFaults(how, v))
 		}
 	}
 	// 3c. every envelope shape
